@@ -43,9 +43,13 @@ func TestC03(t *testing.T) {
 	cfg.PPause = 1
 	cfg.MaxAdds = 6
 	cfg.MaxNames = 4
+	// incarnations: a watched entry of a watched directory is replaced while its
+	// old inode lives on (hard link, open descriptor), then both are changed
+	cfg.WatchFiles = 45
+	cfg.PMacro = 18
 	cfg.W = map[string]int{
 		engine.KCreate: 14, engine.KWrite: 12, engine.KChmod: 8, engine.KUnlink: 10, engine.KRename: 18, engine.KMkdir: 2, engine.KRmdir: 1,
-		engine.KTrunc: 3, engine.KLink: 2, engine.KHold: 1, engine.KRelease: 1,
+		engine.KTrunc: 3, engine.KLink: 5, engine.KHold: 4, engine.KRelease: 3,
 	}
 	engine.CheckE1(t, "C03", cfg, func(c *engine.Case, w *engine.World) bool {
 		return len(w.EvDirs) >= 2 && w.Delivered >= 6 && (w.M.NCookiePairs > 0 || f(w, "renames-with-events") > 0)
